@@ -8,7 +8,7 @@ package main
 //   function: 0 = Start, 1 = startWorkers, 2 = executeAndReschedule, 3 = Wait, 9 = anything else
 //   kind:     0 = counted   (`sched.wg.Add(1)` is the statement right before the `go`, and the goroutine's body
 //                            starts with `defer sched.wg.Done()`)
-//             1 = Wait's helper `go func() { defer close(sig); sched.wg.Wait() }()` (exits when wg reaches zero)
+//             1 = (historic) Wait's helper goroutine around sync.WaitGroup.Wait — no longer recognised: Wait must not create a goroutine
 //             9 = a goroutine the WaitGroup does not account for
 
 import (
@@ -35,6 +35,11 @@ type lifecycleFacts struct {
 	WgAdd1  int        `json:"wgAdd1"`  // … of which with the constant argument 1 and directly followed by a go statement
 	WgDones int        `json:"wgDones"` // calls of sched.wg.Done in package quartz
 	WgDefer int        `json:"wgDefer"` // … of which are the deferred first statement of a counted goroutine
+	WgZeros int        `json:"wgZeros"` // calls of sched.wg.zero (exactly one: in Wait)
+	WgOther int        `json:"wgOther"` // any other use of a field or method of sched.wg
+	Counter      bool     `json:"counter"`      // type waitCounter and its methods Add / Done / zero have exactly the modelled shape
+	CounterAdd   []string `json:"counterAdd"`   // statements of (*waitCounter).Add as read
+	CounterZero  []string `json:"counterZero"`  // statements of (*waitCounter).zero as read
 	// shapes (true = found exactly as described)
 	Watcher       bool     `json:"watcher"`       // go func(run uint64){ defer wg.Done(); <-ctx.Done(); sched.stopRun(run) }(sched.run) after sched.run++
 	StopRunGuard  bool     `json:"stopRunGuard"`  // stopRun: Lock; defer Unlock; if sched.run == run { sched.stop() }
@@ -45,7 +50,7 @@ type lifecycleFacts struct {
 	StopShape     bool     `json:"stopShape"`     // stop: if !sched.started { …; return }; sched.cancel(); sched.started = false
 	StopLocked    bool     `json:"stopLocked"`    // Stop: Lock; defer Unlock; sched.stop()
 	IsStartedCtx  bool     `json:"isStartedCtx"`  // IsStarted: RLock; defer RUnlock; return sched.started && sched.runCtx.Err() == nil
-	WaitShape     bool     `json:"waitShape"`     // Wait: helper goroutine closes sig after wg.Wait(); select on ctx.Done() / sig
+	WaitShape     bool     `json:"waitShape"`     // Wait: select { case <-ctx.Done(): case <-sched.wg.zero(): } and nothing else (no goroutine, no write)
 	JobsGetRunCtx bool     `json:"jobsGetRunCtx"` // the run's derived ctx is what loop, workers, executeWithRetries and Job.Execute receive
 	LoopExits     bool     `json:"loopExits"`     // startExecutionLoop: defer wg.Done() first; select has `case <-ctx.Done(): …; return`
 	StartedWrites []string `json:"startedWrites"` // every assignment to sched.started: function=value
@@ -186,8 +191,6 @@ func extractLifecycle(repo string, fx *Facts) {
 						site.Kind = 0
 						lf.WgDefer++
 						lf.WgAdd1++
-					case fd.Name.Name == "Wait" && lcEq(lcStmts(body), []string{"defer close(sig)", "sched.wg.Wait()"}):
-						site.Kind = 1
 					}
 					lf.GoSites = append(lf.GoSites, site)
 				}
@@ -201,6 +204,15 @@ func extractLifecycle(repo string, fx *Facts) {
 					lf.WgAdds++
 				case "sched.wg.Done":
 					lf.WgDones++
+				case "sched.wg.zero":
+					lf.WgZeros++
+				}
+			}
+			if se, ok := n.(*ast.SelectorExpr); ok && lcStr(se.X) == "sched.wg" {
+				switch se.Sel.Name {
+				case "Add", "Done", "zero":
+				default:
+					lf.WgOther++
 				}
 			}
 			return true
@@ -275,8 +287,65 @@ func extractLifecycle(repo string, fx *Facts) {
 		lf.IsStartedCtx = lcEq(lcStmts(fd.Body.List), []string{"sched.mtx.RLock()", "defer sched.mtx.RUnlock()", "return sched.started && sched.runCtx.Err() == nil"})
 	}
 	if fd := p.method("StdScheduler", "Wait"); fd != nil {
-		lf.WaitShape = lcEq(lcStmts(fd.Body.List), []string{"sig := make(chan struct{})", "go func{defer close(sig); sched.wg.Wait()}()",
-			"select {<-ctx.Done():  | <-sig: }"})
+		lf.WaitShape = lcEq(lcStmts(fd.Body.List), []string{"select {<-ctx.Done():  | <-sched.wg.zero(): }"})
+	}
+	// the counter: Add makes a fresh channel when it leaves zero and closes it when n returns to zero;
+	// zero() answers a closed channel iff n == 0, else the current one; nothing else touches n / done
+	{
+		add, done, zero := p.method("waitCounter", "Add"), p.method("waitCounter", "Done"), p.method("waitCounter", "zero")
+		methods := 0
+		for _, f := range p.files {
+			for _, d := range f.Decls {
+				if fd, ok := d.(*ast.FuncDecl); ok && fd.Recv != nil && len(fd.Recv.List) == 1 {
+					t := fd.Recv.List[0].Type
+					if st, ok := t.(*ast.StarExpr); ok {
+						t = st.X
+					}
+					if id, ok := t.(*ast.Ident); ok && id.Name == "waitCounter" {
+						methods++
+						if _, isPtr := fd.Recv.List[0].Type.(*ast.StarExpr); !isPtr {
+							methods += 100 // a value receiver would copy the counter
+						}
+					}
+				}
+			}
+		}
+		fields := ""
+		wgIsCounter := false
+		for _, f := range p.files {
+			ast.Inspect(f, func(n ast.Node) bool {
+				ts, ok := n.(*ast.TypeSpec)
+				if !ok {
+					return true
+				}
+				st, ok := ts.Type.(*ast.StructType)
+				if !ok {
+					return true
+				}
+				for _, fl := range st.Fields.List {
+					for _, nm := range fl.Names {
+						if ts.Name.Name == "waitCounter" {
+							fields += nm.Name + " " + lcStr(fl.Type) + "; "
+						}
+						if ts.Name.Name == "StdScheduler" && nm.Name == "wg" && lcStr(fl.Type) == "waitCounter" {
+							wgIsCounter = true
+						}
+					}
+				}
+				return true
+			})
+		}
+		if add != nil && done != nil && zero != nil {
+			lf.CounterAdd = lcStmts(add.Body.List)
+			lf.CounterZero = lcStmts(zero.Body.List)
+			lf.Counter = methods == 3 && wgIsCounter && fields == "mtx sync.Mutex; n int; done chan struct{}; " &&
+				lcEq(lf.CounterAdd, []string{"w.mtx.Lock()", "defer w.mtx.Unlock()", "if w.n == 0 {w.done = make(chan struct{})}", "w.n += delta", "if w.n == 0 {close(w.done)}"}) &&
+				lcEq(lcStmts(done.Body.List), []string{"w.Add(-1)"}) &&
+				lcEq(lf.CounterZero, []string{"w.mtx.Lock()", "defer w.mtx.Unlock()", "if w.n == 0 {closed := make(chan struct{}); close(closed); return closed}", "return w.done"})
+		}
+		if !lf.Counter {
+			fx.miss("lifecycle.counter")
+		}
 	}
 	for name, ok := range map[string]bool{"stopRunGuard": lf.StopRunGuard, "stopLocked": lf.StopLocked, "stopShape": lf.StopShape,
 		"isStartedCtx": lf.IsStartedCtx, "waitShape": lf.WaitShape, "watcher": lf.Watcher} {
@@ -414,10 +483,12 @@ func renderLifecycle(fx *Facts) string {
 		}
 		doc = append(doc, fmt.Sprintf("  %s %s kind %d: %s", s.Pos, s.Func, s.Kind, t))
 	}
-	fmt.Fprintf(&b, "/-- every `go` statement of package quartz in source order, (function code, kind code); kind 0 = `sched.wg.Add(1)` right before and\n    `defer sched.wg.Done()` first in the goroutine, 1 = Wait's helper (exits when wg reaches zero), 9 = not accounted for:\n%s -/\ndef goSites : List (Nat × Nat) := [%s]\n\n",
+	fmt.Fprintf(&b, "/-- every `go` statement of package quartz in source order, (function code, kind code); kind 0 = `sched.wg.Add(1)` right before and\n    `defer sched.wg.Done()` first in the goroutine, 9 = not accounted for (`Wait` must not appear: it creates no goroutine):\n%s -/\ndef goSites : List (Nat × Nat) := [%s]\n\n",
 		strings.Join(doc, "\n"), strings.Join(sites, ", "))
-	fmt.Fprintf(&b, "/-- calls of `sched.wg.Add` / of which `Add(1)` directly before a counted `go` / calls of `sched.wg.Done` / of which deferred first in a counted goroutine -/\ndef wgCalls : List Nat := [%d, %d, %d, %d]\n\n",
-		lf.WgAdds, lf.WgAdd1, lf.WgDones, lf.WgDefer)
+	fmt.Fprintf(&b, "/-- calls of `sched.wg.Add` / of which `Add(1)` directly before a counted `go` / calls of `sched.wg.Done` / of which deferred first in a counted goroutine /\n    calls of `sched.wg.zero` / any other use of `sched.wg` -/\ndef wgCalls : List Nat := [%d, %d, %d, %d, %d, %d]\n\n",
+		lf.WgAdds, lf.WgAdd1, lf.WgDones, lf.WgDefer, lf.WgZeros, lf.WgOther)
+	fmt.Fprintf(&b, "/-- `waitCounter` {mtx, n, done} with exactly the methods\n    Add:  %s\n    Done: w.Add(-1)\n    zero: %s -/\ndef counterShape : Bool := %v\n",
+		strings.Join(lf.CounterAdd, "; "), strings.Join(lf.CounterZero, "; "), lf.Counter)
 	fmt.Fprintf(&b, "/-- statements of `Start` (%s), logging dropped:\n  %s -/\ndef startShape : Bool := %v\n", fx.Where["lifecycle.Start"], strings.Join(lf.StartStmts, "\n  "), lf.StartShape)
 	fmt.Fprintf(&b, "/-- `if sched.started && sched.runCtx.Err() != nil { sched.stop() }` precedes the early return of `Start` -/\ndef startPrestop : Bool := %v\n", lf.StartPrestop)
 	fmt.Fprintf(&b, "/-- `if sched.started { return }` precedes the creation of the run -/\ndef startEarlyReturn : Bool := %v\n", lf.StartEarlyRet)
@@ -426,7 +497,7 @@ func renderLifecycle(fx *Facts) string {
 	fmt.Fprintf(&b, "/-- `Stop`: Lock; defer Unlock; sched.stop() -/\ndef stopLocked : Bool := %v\n", lf.StopLocked)
 	fmt.Fprintf(&b, "/-- `stop`: `if !sched.started { return }`; `sched.cancel()`; `sched.started = false` -/\ndef stopShape : Bool := %v\n", lf.StopShape)
 	fmt.Fprintf(&b, "/-- `IsStarted`: RLock; defer RUnlock; `return sched.started && sched.runCtx.Err() == nil` -/\ndef isStartedCtxAware : Bool := %v\n", lf.IsStartedCtx)
-	fmt.Fprintf(&b, "/-- `Wait`: helper goroutine closes `sig` after `wg.Wait()`; `select` on the caller's ctx and `sig` -/\ndef waitShape : Bool := %v\n", lf.WaitShape)
+	fmt.Fprintf(&b, "/-- `Wait` is exactly `select { case <-ctx.Done(): case <-sched.wg.zero(): }`: no goroutine, no write -/\ndef waitShape : Bool := %v\n", lf.WaitShape)
 	fmt.Fprintf(&b, "/-- the loop's first statement is `defer sched.wg.Done()` and its select returns on `<-ctx.Done()` -/\ndef loopExitsOnDone : Bool := %v\n", lf.LoopExits)
 	fmt.Fprintf(&b, "/-- the derived ctx of `Start` is the first argument all the way: startWorkers / startExecutionLoop / executeAndReschedule /\n    executeWithRetries / Job.Execute, and nothing re-binds `ctx` on the way -/\ndef jobsGetRunCtx : Bool := %v\n", lf.JobsGetRunCtx)
 	fmt.Fprintf(&b, "/-- assignments to `sched.started` in package quartz are exactly: %s -/\ndef startedWritesStd : Bool := %v\n", strings.Join(lf.StartedWrites, ", "), lf.StartedOK)
